@@ -24,6 +24,8 @@ func init() {
 			{"C13.R6", "q", "shared: same-hash groups reported", c13r6},
 			{"C14.R7", "q", "data size recorded", c14r7},
 			{"C14.R8", "q", "nil discipline of hint readers", c14r8},
+			{"C13.R6b", "q", "shared: merge flushes its last group on every path", c13r6b},
+			{"C14.R9", "q", "sparse-index buffer fills every slot", c14r9},
 		},
 	})
 }
@@ -234,6 +236,11 @@ func lessChain(c *Ctx, f *prog.Func) ([]string, bool) {
 		name := func(e ast.Expr) string {
 			e = prog.StripConv(info, e)
 			if call, ok := e.(*ast.CallExpr); ok {
+				if k := prog.CalleeKey(info, call); k == "builtin.len" && len(call.Args) == 1 {
+					if fp := prog.FieldPath(info, call.Args[0]); fp != "" {
+						return "len(" + fp + ")"
+					}
+				}
 				if k := prog.CalleeKey(info, call); k == "store.Position.CmpKey" {
 					if se, ok := prog.Unparen(call.Fun).(*ast.SelectorExpr); ok {
 						return prog.FieldPath(info, se.X) + ".CmpKey()"
@@ -616,4 +623,55 @@ func nilDiscipline(c *Ctx, R string, f *prog.Func, callee string, idx int) {
 		}
 		c.check(bad == "", R, key, call.Pos(), itoa(n)+" dereference(s), all under a nil test", short(callee)+" can return a nil pointer together with a nil error (end of items / key not known), and its result is dereferenced at "+bad+" without a nil test")
 	}
+}
+
+// c14r9: hintFileIndexBuffer.append must not leave a hole when a row fills up.
+// Either it stores and then rolls over when currCol has reached ROW_SIZE-1, or
+// it rolls over first when currCol has reached ROW_SIZE.
+func c14r9(c *Ctx) {
+	const R = "C14.R9"
+	f := c.fn(R, "store.hintFileIndexBuffer.append")
+	if f == nil {
+		return
+	}
+	info := f.Info()
+	var store ast.Node
+	var roll *ast.IfStmt
+	var k int64 = -1
+	ast.Inspect(f.Decl.Body, func(x ast.Node) bool {
+		switch s := x.(type) {
+		case *ast.AssignStmt:
+			for _, l := range s.Lhs {
+				if ix, ok := prog.Unparen(l).(*ast.IndexExpr); ok {
+					if ix2, ok := prog.Unparen(ix.X).(*ast.IndexExpr); ok && prog.IsField(info, "store.hintFileIndexBuffer.index")(prog.Unparen(ix2.X)) && prog.IsField(info, "store.hintFileIndexBuffer.currCol")(prog.Unparen(ix.Index)) {
+						store = s
+					}
+				}
+			}
+		case *ast.IfStmt:
+			if be, ok := prog.Unparen(s.Cond).(*ast.BinaryExpr); ok && prog.IsField(info, "store.hintFileIndexBuffer.currCol")(prog.Unparen(be.X)) {
+				if v, isC := prog.ConstInt(info, be.Y); isC {
+					size, _ := constVal(c, "store", "HINTINDEX_ROW_SIZE")
+					switch be.Op {
+					case token.GEQ:
+						k = size - v
+					case token.GTR:
+						k = size - v - 1
+					case token.EQL:
+						k = size - v
+					}
+					roll = s
+				}
+			}
+		}
+		return true
+	})
+	if store == nil || roll == nil || k < 0 {
+		c.undec(R, f.Key, "slot store / row roll-over test not recognised")
+		return
+	}
+	storeFirst := store.Pos() < roll.Pos()
+	ok := (storeFirst && k == 1) || (!storeFirst && k == 0)
+	c.check(ok, R, f.Key+": roll-over test matches the store/advance order", c.pos(roll), "store then roll at ROW_SIZE-1 (or roll at ROW_SIZE then store)",
+		"the row roll-over happens "+map[bool]string{true: "after", false: "before"}[storeFirst]+" the slot store but tests currCol against ROW_SIZE-"+itoa(int(k))+": the last slot of every full row is never written (or one is overwritten), so the persisted sparse index has a zero entry in the middle and the binary search starts the scan at offset 0 or past the item")
 }
